@@ -29,10 +29,22 @@ pub enum Mode {
     EmptyBlockAlt,
     FuncEntry,
     FuncExit,
+    /// clear_instr_at(loc, Before / After / Alternate): whatever was injected in that mode at the site so far is withdrawn
+    ClearBefore,
+    ClearAfter,
+    ClearAlt,
 }
 impl Mode {
     pub fn special(self) -> bool {
-        !matches!(self, Mode::Before | Mode::After | Mode::Alt | Mode::EmptyAlt)
+        !matches!(self, Mode::Before | Mode::After | Mode::Alt | Mode::EmptyAlt | Mode::ClearBefore | Mode::ClearAfter | Mode::ClearAlt)
+    }
+    pub fn clears(self) -> Option<IM> {
+        match self {
+            Mode::ClearBefore => Some(IM::Before),
+            Mode::ClearAfter => Some(IM::After),
+            Mode::ClearAlt => Some(IM::Alternate),
+            _ => None,
+        }
     }
     fn im(self) -> Option<IM> {
         Some(match self {
@@ -246,6 +258,7 @@ fn set_mode_iter<'a, T: IteratingInstrumenter<'a>>(it: &mut T, mode: Mode) {
         Mode::FuncExit => {
             it.func_exit();
         }
+        Mode::ClearBefore | Mode::ClearAfter | Mode::ClearAlt => unreachable!("clears are applied in apply_one_module"),
     }
 }
 fn set_mode_at<'a, T: Instrumenter<'a>>(fm: &mut T, mode: Mode, loc: Location) {
@@ -283,11 +296,25 @@ fn set_mode_at<'a, T: Instrumenter<'a>>(fm: &mut T, mode: Mode, loc: Location) {
         Mode::FuncExit => {
             fm.func_exit();
         }
+        Mode::ClearBefore | Mode::ClearAfter | Mode::ClearAlt => unreachable!("clears are applied in apply_one_module"),
     }
 }
 
 fn apply_one_module<'a>(m: &mut wirm::Module<'a>, inj: &Inj, ops: Vec<O<'static>>) {
     let loc = Location::Module { func_idx: FunctionID(inj.func), instr_idx: inj.at };
+    if let Some(what) = inj.mode.clears() {
+        match inj.path {
+            Path::Iter | Path::IterInjectAt => {
+                let mut it = ModuleIterator::new(m, &vec![]);
+                it.clear_instr_at(loc, what);
+            }
+            _ => {
+                let mut fm = m.functions.get_fn_modifier(FunctionID(inj.func)).expect("modifier");
+                fm.clear_instr_at(loc, what);
+            }
+        }
+        return;
+    }
     let mut ops: Vec<O<'a>> = ops.into_iter().map(|o| o as O<'a>).collect();
     if inj.probe == Probe::HostThenOrig {
         // neutral alternate: the probe followed by the instruction it replaces
@@ -363,7 +390,7 @@ pub fn apply_component_n(base: &[u8], plan: &[Inj], rng: &mut Rng, n: usize) -> 
         }
         let r = catch(|| {
             match inj.path {
-                Path::Iter | Path::IterInjectAt => {
+                Path::Iter | Path::IterInjectAt if inj.mode.clears().is_none() => {
                     let mut it = ComponentIterator::new(&mut comp, HashMap::new());
                     loop {
                         if let (Location::Component { mod_idx, func_idx, instr_idx }, _) = it.curr_loc() {
@@ -504,6 +531,9 @@ pub fn expected_body(ops: &[SymOp], plan: &[&Inj]) -> Vec<SymOp> {
             Mode::EmptyAlt => s.alt = Some(vec![]),
             Mode::BlockAlt => s.block_alt.get_or_insert_with(Vec::new).extend(probe),
             Mode::EmptyBlockAlt => s.block_alt = Some(vec![]),
+            Mode::ClearBefore => s.before.clear(),
+            Mode::ClearAfter => s.after.clear(),
+            Mode::ClearAlt => s.alt = None,
             _ => {}
         }
     }
@@ -752,6 +782,20 @@ pub fn gen_plan(id: &str, rng: &mut Rng) -> Result<(gen::GenModule, Vec<Inj>, bo
                 }
                 plan.push(Inj { func, at, mode, path, uid, n_ops: rng.range(1, 2), leading_drop: false, probe: Probe::Marker });
                 uid += 1;
+                // 1 in 8: what was injected at a site in one mode is withdrawn again (and possibly injected anew by a later step)
+                if rng.chance(1, 8) {
+                    let p = rng.pick(&plan).clone();
+                    let clear = match p.mode {
+                        Mode::Before => Some(Mode::ClearBefore),
+                        Mode::After => Some(Mode::ClearAfter),
+                        Mode::Alt | Mode::EmptyAlt => Some(Mode::ClearAlt),
+                        _ => None,
+                    };
+                    if let Some(c) = clear {
+                        plan.push(Inj { func: p.func, at: p.at, mode: c, path: *rng.pick(&[Path::Iter, Path::Modifier]), uid, n_ops: 1, leading_drop: false, probe: Probe::Marker });
+                        uid += 1;
+                    }
+                }
             }
         }
         "C21" => {
@@ -799,6 +843,14 @@ pub fn gen_plan(id: &str, rng: &mut Rng) -> Result<(gen::GenModule, Vec<Inj>, bo
                         }
                         plan.push(Inj { func: nimp + f as u32, at: c, mode, path, uid, n_ops: 1, leading_drop: is_if && mode == Mode::BlockAlt, probe: Probe::Marker });
                         uid += 1;
+                        // 1 in 6: replacement code first, then an empty block-alternate on the same construct (the removal wins)
+                        if mode == Mode::BlockAlt && rng.chance(1, 6) {
+                            if is_if {
+                                empty_if = true;
+                            }
+                            plan.push(Inj { func: nimp + f as u32, at: c, mode: Mode::EmptyBlockAlt, path: *rng.pick(&[Path::Iter, Path::Modifier]), uid, n_ops: 1, leading_drop: false, probe: Probe::Marker });
+                            uid += 1;
+                        }
                     }
                 }
                 // plain injections outside the replaced regions
@@ -937,6 +989,9 @@ fn mode_of(s: &str) -> Option<Mode> {
         "EmptyBlockAlt" => Mode::EmptyBlockAlt,
         "FuncEntry" => Mode::FuncEntry,
         "FuncExit" => Mode::FuncExit,
+        "ClearBefore" => Mode::ClearBefore,
+        "ClearAfter" => Mode::ClearAfter,
+        "ClearAlt" => Mode::ClearAlt,
         _ => return None,
     })
 }
